@@ -77,7 +77,158 @@ pub trait Engine {
     fn crash_is_violation(&self) -> bool {
         true
     }
+    /// coverage-guided twin (thorough tier): libFuzzer target built with ASan + debug assertions
+    fn fuzz(&self) -> Option<FuzzSpec> {
+        None
+    }
 }
+
+pub struct FuzzSpec {
+    pub target: &'static str,
+    pub max_len: usize,
+    /// bytes the fuzz target expects in front of an engine case (fz_misc's engine selector)
+    pub target_prefix: Vec<u8>,
+    /// bytes to strip from an engine case before it is handed to the target (C18's family byte)
+    pub engine_prefix: Vec<u8>,
+}
+
+pub const FUZZ_DIR: &str = "/verif/harness/fuzz/target/x86_64-unknown-linux-gnu/release";
+
+/// run one saved input through the fuzz binary; Some(message) if it fails there
+pub fn fuzz_replay(target: &str, prop: &str, input: &[u8]) -> Result<Option<String>, String> {
+    let exe = format!("{FUZZ_DIR}/{target}");
+    if !Path::new(&exe).exists() {
+        return Err(format!("fuzz binary {exe} is missing (run setup.sh or ./run {prop} thorough)"));
+    }
+    let tmp = format!("{VERIF}/work/fzreplay_{}_{}", std::process::id(), fnv(input));
+    std::fs::write(&tmp, input).map_err(|e| e.to_string())?;
+    let out = Command::new(&exe).arg(&tmp).env("VERIF_PROP", prop).env("ASAN_OPTIONS", "detect_leaks=0").stdout(Stdio::null()).stderr(Stdio::piped()).output();
+    let _ = std::fs::remove_file(&tmp);
+    let out = out.map_err(|e| e.to_string())?;
+    if out.status.success() {
+        return Ok(None);
+    }
+    let err = String::from_utf8_lossy(&out.stderr);
+    let line = err.lines().find(|l| l.contains("FUZZ-VIOLATION") || l.contains("ERROR: AddressSanitizer") || l.contains("panicked at")).unwrap_or("fuzz target died").to_string();
+    Ok(Some(line))
+}
+
+struct FuzzOutcome {
+    execs: u64,
+    features: u64,
+    corpus: u64,
+    crashes: Vec<(Vec<u8>, String)>,
+    notes: Vec<String>,
+    seeds: u64,
+}
+
+fn fuzz_campaign(eng: &dyn Engine, spec: &FuzzSpec, seed: u64, deadline: Instant) -> FuzzOutcome {
+    let prop = eng.prop();
+    let mut out = FuzzOutcome { execs: 0, features: 0, corpus: 0, crashes: vec![], notes: vec![], seeds: 0 };
+    let exe = format!("{FUZZ_DIR}/{}", spec.target);
+    if !Path::new(&exe).exists() {
+        out.notes.push(format!("fuzz binary {exe} is missing"));
+        return out;
+    }
+    let nproc = 8u32;
+    let root = format!("{VERIF}/work/fz_{prop}");
+    let _ = std::fs::remove_dir_all(&root);
+    // seed corpus: cases from the engine's own generator (empty corpus ramps up too slowly)
+    {
+        use proptest::strategy::Strategy;
+        let mut runner = TestRunner::new(Config { rng_seed: RngSeed::Fixed(seed ^ 0xf22), failure_persistence: None, ..Config::default() });
+        let strat = eng.strategy(Tier::Thorough);
+        for i in 0..nproc {
+            let dir = format!("{root}/c{i}");
+            let _ = std::fs::create_dir_all(&dir);
+            for j in 0..24 {
+                if let Ok(t) = strat.new_tree(&mut runner) {
+                    let case = t.current();
+                    if !case.starts_with(&spec.engine_prefix) {
+                        continue;
+                    }
+                    let mut bytes = spec.target_prefix.clone();
+                    bytes.extend_from_slice(&case[spec.engine_prefix.len()..]);
+                    if bytes.len() <= spec.max_len {
+                        let _ = std::fs::write(format!("{dir}/seed{j}"), &bytes);
+                        out.seeds += 1;
+                    }
+                }
+            }
+        }
+    }
+    let secs = deadline.saturating_duration_since(Instant::now()).as_secs().min(150).max(10);
+    let mut children = vec![];
+    for i in 0..nproc {
+        let dir = format!("{root}/c{i}");
+        let child = Command::new(&exe)
+            .args([
+                format!("-runs={}", 120_000),
+                format!("-max_total_time={secs}"),
+                format!("-seed={}", seed.wrapping_mul(31).wrapping_add(i as u64 + 1) % 4_000_000_000),
+                "-len_control=0".to_string(),
+                format!("-max_len={}", spec.max_len),
+                "-print_final_stats=1".to_string(),
+                format!("-artifact_prefix={root}/art{i}_"),
+                dir,
+            ])
+            .env("VERIF_PROP", prop)
+            .env("ASAN_OPTIONS", "detect_leaks=0")
+            .stdout(Stdio::null())
+            .stderr(Stdio::piped())
+            .spawn();
+        match child {
+            Ok(c) => children.push((i, c)),
+            Err(e) => out.notes.push(format!("cannot start fuzz process {i}: {e}")),
+        }
+    }
+    for (i, mut c) in children {
+        let mut se = c.stderr.take().unwrap();
+        let h = std::thread::spawn(move || {
+            let mut s = String::new();
+            let _ = se.read_to_string(&mut s);
+            s
+        });
+        let st = wait_with_timeout(&mut c, Instant::now() + Duration::from_secs(secs + 120));
+        let err = h.join().unwrap_or_default();
+        for l in err.lines() {
+            if let Some(v) = l.strip_prefix("stat::number_of_executed_units:") {
+                out.execs += v.trim().parse::<u64>().unwrap_or(0);
+            }
+        }
+        if let Some(l) = err.lines().rev().find(|l| l.contains(" cov: ") && l.contains(" ft: ")) {
+            let grab = |key: &str| l.split(key).nth(1).and_then(|r| r.split_whitespace().next()).and_then(|x| x.parse::<u64>().ok()).unwrap_or(0);
+            out.features += grab(" ft: ");
+            out.corpus += grab(" corp: ").max(l.split(" corp: ").nth(1).and_then(|r| r.split('/').next()).and_then(|x| x.trim().parse::<u64>().ok()).unwrap_or(0));
+        }
+        match st {
+            None => out.notes.push(format!("fuzz process {i} had to be stopped")),
+            Some(s) if s.success() => {}
+            Some(_) => {
+                // look for the artifact
+                let mut found = false;
+                if let Ok(rd) = std::fs::read_dir(&root) {
+                    for e in rd.flatten() {
+                        let name = e.file_name().to_string_lossy().to_string();
+                        if name.starts_with(&format!("art{i}_")) {
+                            if let Ok(bytes) = std::fs::read(e.path()) {
+                                let line = err.lines().find(|l| l.contains("FUZZ-VIOLATION") || l.contains("ERROR: AddressSanitizer")).unwrap_or("fuzz target died").to_string();
+                                out.crashes.push((bytes, line));
+                                found = true;
+                            }
+                        }
+                    }
+                }
+                if !found {
+                    out.notes.push(format!("fuzz process {i} failed without an artifact: {}", err.lines().rev().take(3).collect::<Vec<_>>().join(" | ")));
+                }
+            }
+        }
+    }
+    let _ = std::fs::remove_dir_all(&root);
+    out
+}
+
 
 #[derive(Clone, Debug, Default)]
 pub struct SweepOut {
@@ -434,6 +585,33 @@ pub fn check_main(eng: &dyn Engine, tier: Tier) -> i32 {
         }
     }
 
+    // 2b. thorough tier: coverage-guided campaign on the same decoder/interpreter/oracles
+    let mut fuzz_cov: Option<Value> = None;
+    if tier == Tier::Thorough {
+        if let Some(spec) = eng.fuzz() {
+            let fo = fuzz_campaign(eng, &spec, seed, deadline);
+            let mut confirmed = 0;
+            for (j, (bytes, line)) in fo.crashes.iter().enumerate() {
+                // a crash only counts if the saved input fails again when replayed on its own
+                match fuzz_replay(spec.target, prop, bytes) {
+                    Ok(Some(msg)) => {
+                        confirmed += 1;
+                        let body = json!({"property": prop, "engine": "libfuzzer", "target": spec.target, "seed": seed, "bytes_hex": hex(bytes), "failure": msg});
+                        let path = write_replay(prop, &format!("fuzz{j}"), &body);
+                        violations.push((format!("libFuzzer ({}): {}", spec.target, line), path));
+                    }
+                    Ok(None) => inconclusive.push(format!("a libFuzzer crash of {} did not reproduce from its saved input", spec.target)),
+                    Err(e) => inconclusive.push(e),
+                }
+            }
+            for n in fo.notes.iter() {
+                inconclusive.push(format!("fuzz: {n}"));
+            }
+            fuzz_cov = Some(json!({"target": spec.target, "processes": 8, "seed_inputs": fo.seeds, "executions": fo.execs, "features_sum": fo.features, "corpus_sum": fo.corpus, "crashes": fo.crashes.len(), "crashes_confirmed_by_replay": confirmed,
+                "build": "cargo +nightly fuzz build: AddressSanitizer, debug assertions and overflow checks on"}));
+        }
+    }
+
     // 3. aggregate
     let names = eng.stat_names();
     let mut stats = vec![0u64; names.len()];
@@ -572,6 +750,9 @@ pub fn check_main(eng: &dyn Engine, tier: Tier) -> i32 {
     if eng.level() == "other" {
         coverage["explanation"] = json!(eng.rule());
     }
+    if let Some(f) = fuzz_cov {
+        coverage["libfuzzer_campaign"] = f;
+    }
     let ev = json!({
         "property_id": prop,
         "tier": tier.name(),
@@ -630,7 +811,17 @@ pub fn replay_main(lookup: &dyn Fn(&str) -> Option<Box<dyn Engine>>, path: &str)
         eprintln!("no engine for {prop} in this binary");
         return 2;
     };
-    let msgs = if v["engine"] == "sweep" {
+    let msgs = if v["engine"] == "libfuzzer" {
+        let bytes = unhex(v["bytes_hex"].as_str().unwrap_or(""));
+        match fuzz_replay(v["target"].as_str().unwrap_or(""), prop, &bytes) {
+            Ok(Some(m)) => vec![m],
+            Ok(None) => vec![],
+            Err(e) => {
+                eprintln!("{e}");
+                return 2;
+            }
+        }
+    } else if v["engine"] == "sweep" {
         eng.replay_sweep(&v["item"])
     } else {
         let bytes = unhex(v["bytes_hex"].as_str().unwrap_or(""));
